@@ -4,16 +4,18 @@
 # worktree of /repo's current HEAD (so hooks and fixes are present), runs the registered check(s)
 # against it with scripts/run_against.sh (/repo itself is not touched) and prints a verdict line.
 set -u
+# SEED_ROUND=2 : source /tmp/seed2-<Cxx>, output /verif/seeded/<Cxx>-2
 P="$1"; shift
-OUT="/verif/seeded/$P"
+R="${SEED_ROUND:-1}"
+if [ "$R" = 1 ]; then SRC="/tmp/seed-$P"; OUT="/verif/seeded/$P"; else SRC="/tmp/seed$R-$P"; OUT="/verif/seeded/$P-$R"; fi
 mkdir -p "$OUT"
-if [ -f "/tmp/seed-$P/SEED/patch.diff" ]; then
-  cp "/tmp/seed-$P/SEED/patch.diff" "$OUT/patch.diff"
-  cp "/tmp/seed-$P/SEED/meta.json" "$OUT/meta.agent.json" 2>/dev/null
-  rm -rf "$OUT/demo"; cp -r "/tmp/seed-$P/SEED/demo" "$OUT/demo" 2>/dev/null
+if [ -f "$SRC/SEED/patch.diff" ]; then
+  cp "$SRC/SEED/patch.diff" "$OUT/patch.diff"
+  cp "$SRC/SEED/meta.json" "$OUT/meta.agent.json" 2>/dev/null
+  rm -rf "$OUT/demo"; cp -r "$SRC/SEED/demo" "$OUT/demo" 2>/dev/null
 fi
 [ -f "$OUT/patch.diff" ] || { echo "no patch for $P"; exit 2; }
-WT="/tmp/evalwt-$P"
+WT="/tmp/evalwt-$P-r$R"
 git -C /repo worktree remove --force "$WT" 2>/dev/null; rm -rf "$WT"
 git -C /repo worktree add -q "$WT" HEAD || exit 2
 if ! git -C "$WT" apply "$OUT/patch.diff"; then echo "seed=$P patch does not apply to current HEAD"; git -C /repo worktree remove --force "$WT"; exit 2; fi
@@ -24,4 +26,4 @@ for C in "$P" "$@"; do
   echo "seed=$P check=$C rc=$RC violations=$(grep -c '^VIOLATION' "$LOG") :: $(tail -1 "$LOG")"
   grep -m3 "signature=" "$LOG" | sed 's/^/    /'
 done
-git -C /repo worktree remove --force "$WT"; rm -rf "/tmp/rvtarget-evalwt-$P" "/tmp/rvtarget-evalwt-$P-bins"
+git -C /repo worktree remove --force "$WT"; rm -rf "/tmp/rvtarget-evalwt-$P-r$R" "/tmp/rvtarget-evalwt-$P-r$R-bins"
